@@ -227,7 +227,7 @@ def w0 : State :=
   { gone := false, marked := false, fins := [], rv := 0, matchDel := true, matchDmn := false,
     delDone := false, dmnLive := false, dmnForever := false, mem := [], pending := none }
 
-def quiet : Env := { consistent := true, merge := false, otherChanging := false, otherDelays := false }
+def quiet : Env := { consistent := true, merge := false, otherChanging := false, otherDelays := false, delReset := false }
 
 /-- A rejected JSON patch (genuine conflict or injected 422) changes nothing on the server and
 leaves NOTHING in `memory.remaining_patch`: the framework's own finalizer edits are not carried. -/
@@ -326,16 +326,16 @@ def Settled (s : State) : Prop := (s.matchDel = true → s.delDone = true) ∧ s
 
 /-- A marked object that still holds the finalizer and has nothing left to wait for loses it in ONE
 undisturbed cycle (consistent state, nothing carried, no other handler's delay). -/
-theorem released_eventually (own : String) (s : State) (e : Env)
+theorem released_in_one_quiet_cycle (own : String) (s : State) (e : Env)
     (hg : s.gone = false) (hp : s.pending = none) (hmem : s.mem = [])
     (hm : s.marked = true) (hown : own ∈ s.fins) (hset : Settled s)
-    (hc : e.consistent = true) (hod : e.otherDelays = false) :
+    (hc : e.consistent = true) (hod : e.otherDelays = false) (hdr : e.delReset = false) :
     ∃ s', run own s (cycleLabels e) = some s' ∧ own ∉ s'.fins ∧ s'.mem = [] ∧ s'.pending = none ∧
           (s'.fins = [] → s'.gone = true) := by
   refine ⟨afterCycle own s e, cycle_run own s e hg hp, ?_⟩
   have hb := release_bool s.matchDel s.matchDmn s.delDone s.dmnForever e.otherChanging hset.1
-  have hin : inputs own s e = inputsB s.matchDel s.matchDmn s.delDone false s.dmnForever true true true true e.otherChanging false := by
-    rw [inputs_eq, hset.2, hm, hc, hod, hmem]; simp [hown]
+  have hin : inputs own s e = inputsB s.matchDel s.matchDmn s.delDone false s.dmnForever true true true true e.otherChanging false false := by
+    rw [inputs_eq, hset.2, hm, hc, hod, hdr, hmem]; simp [hown]
   obtain ⟨pre, hpre⟩ := fns_snoc_allow _ hb.1 hb.2
   have htarget : own ∉ applyFns own (s.mem ++ (decision (inputs own s e)).fns) s.fins := by
     rw [hin, hpre, ← List.append_assoc]
@@ -346,6 +346,7 @@ theorem released_eventually (own : String) (s : State) (e : Env)
     intro heq; rw [heq] at htarget; exact htarget hown
   have hac : afterCycle own s e =
       { s with dmnLive := s.dmnLive || (!s.marked && s.matchDmn && !s.dmnForever),
+               delDone := if (decision (inputs own s e)).handlersRun then s.delDone && !e.delReset else s.delDone,
                fins := applyFns own (s.mem ++ (decision (inputs own s e)).fns) s.fins, rv := s.rv + 1,
                pending := none, mem := [],
                gone := s.marked && (applyFns own (s.mem ++ (decision (inputs own s e)).fns) s.fins).isEmpty } := by
@@ -367,9 +368,9 @@ theorem add_on_match (own : String) (s : State) (e : Env)
   have hmb : (s.matchDel || (s.matchDmn && !s.dmnForever)) = true := by
     rcases hmatch with h | ⟨h1, h2⟩ <;> simp [*]
   have hb := add_bool s.matchDel s.matchDmn s.delDone s.dmnLive s.dmnForever e.consistent s.mem.isEmpty
-    e.otherChanging e.otherDelays hmb
+    e.otherChanging e.otherDelays e.delReset hmb
   have hin : inputs own s e = inputsB s.matchDel s.matchDmn s.delDone s.dmnLive s.dmnForever false false
-      e.consistent s.mem.isEmpty e.otherChanging e.otherDelays := by
+      e.consistent s.mem.isEmpty e.otherChanging e.otherDelays e.delReset := by
     rw [inputs_eq, hm]; simp [hown]
   have hf := fns_add_only _ hb.1 hb.2.1 hb.2.2
   have htarget : own ∈ applyFns own (s.mem ++ (decision (inputs own s e)).fns) s.fins := by
@@ -390,9 +391,9 @@ theorem remove_on_mismatch (own : String) (s : State) (e : Env)
   have hmb : (s.matchDel || (s.matchDmn && !s.dmnForever)) = false := by
     rcases hmis with ⟨h0, h | h⟩ <;> simp [*]
   have hb := remove_bool s.matchDel s.matchDmn s.delDone s.dmnLive s.dmnForever s.marked e.consistent
-    s.mem.isEmpty e.otherChanging e.otherDelays hmb
+    s.mem.isEmpty e.otherChanging e.otherDelays e.delReset hmb
   have hin : inputs own s e = inputsB s.matchDel s.matchDmn s.delDone s.dmnLive s.dmnForever s.marked true
-      e.consistent s.mem.isEmpty e.otherChanging e.otherDelays := by
+      e.consistent s.mem.isEmpty e.otherChanging e.otherDelays e.delReset := by
     rw [inputs_eq]; simp [hown]
   obtain ⟨pre, hpre⟩ := fns_snoc_allow _ hb.1 (by simp [hb.2])
   have htarget : own ∉ applyFns own (s.mem ++ (decision (inputs own s e)).fns) s.fins := by
@@ -405,11 +406,11 @@ theorem remove_on_mismatch (own : String) (s : State) (e : Env)
   simp only [afterCycle, hne, if_false]
   exact ⟨htarget, filter_applyFns own _ _⟩
 
-theorem arm_bool : ∀ (matchDel matchDmn delDone dmnLive dmnForever marked blocked cons memEmpty otherChanging otherDelays : Bool),
-    ((decision (inputsB matchDel matchDmn delDone dmnLive dmnForever marked blocked cons memEmpty otherChanging otherDelays)).add = true →
+theorem arm_bool : ∀ (matchDel matchDmn delDone dmnLive dmnForever marked blocked cons memEmpty otherChanging otherDelays delReset : Bool),
+    ((decision (inputsB matchDel matchDmn delDone dmnLive dmnForever marked blocked cons memEmpty otherChanging otherDelays delReset)).add = true →
       (matchDel || (matchDmn && !dmnForever)) = true ∧ blocked = false ∧ marked = false) ∧
-    (((decision (inputsB matchDel matchDmn delDone dmnLive dmnForever marked blocked cons memEmpty otherChanging otherDelays)).removeUnneeded
-      || (decision (inputsB matchDel matchDmn delDone dmnLive dmnForever marked blocked cons memEmpty otherChanging otherDelays)).release) = true →
+    (((decision (inputsB matchDel matchDmn delDone dmnLive dmnForever marked blocked cons memEmpty otherChanging otherDelays delReset)).removeUnneeded
+      || (decision (inputsB matchDel matchDmn delDone dmnLive dmnForever marked blocked cons memEmpty otherChanging otherDelays delReset)).release) = true →
       blocked = true ∧ ((matchDel || (matchDmn && !dmnForever)) = false ∨ marked = true)) := by
   decide
 
@@ -421,7 +422,7 @@ theorem add_remove_on_match (own : String) (s : State) (e : Env) :
     (Fn.allow ∈ (decision (inputs own s e)).fns → own ∈ s.fins ∧
         ((s.matchDel = false ∧ (s.matchDmn = false ∨ s.dmnForever = true)) ∨ s.marked = true)) := by
   have hb := arm_bool s.matchDel s.matchDmn s.delDone s.dmnLive s.dmnForever s.marked (decide (own ∈ s.fins))
-    e.consistent s.mem.isEmpty e.otherChanging e.otherDelays
+    e.consistent s.mem.isEmpty e.otherChanging e.otherDelays e.delReset
   rw [← inputs_eq] at hb
   constructor
   · intro h
